@@ -197,4 +197,4 @@ def run(ctx):
     for nm in names:
         if only and nm not in only:
             continue
-        run_hypothesis(ctx, nm, ac.analytic_case(names=[nm]), prop_entry, per, rounds=4)
+        run_hypothesis(ctx, nm, ac.analytic_case(names=[nm], weights=True), prop_entry, per, rounds=4)
